@@ -110,6 +110,24 @@ Section Surrogate.
                   let '(outs, h', st') := run_calls ks' pool_size grids (history_after r) (state_after r) in
                   (proposals r :: outs, h', st')
     end.
+
+  (* round 4 - ONE sampler object used again and again by its caller.  Every call has its own batch size (the public
+     attribute `batch_size` may have been reassigned, or sample_batch is called directly), its own search space and its
+     own history: the calibrator's grown arrays, another history of any length, the same array objects overwritten in
+     place by the caller, the array a previous call returned - for the model each of these is just "the history handed
+     to that call".  The ONLY thing sample_batch carries from one call to the next is the generator state (surrogate.py
+     keeps no other attribute that sample_batch reads: the fitted surrogate is rebuilt by every call's fit). *)
+  Definition request : Type := (nat * list (list num) * history)%type.
+  Definition req_k (q : request) : nat := fst (fst q).
+  Definition req_grids (q : request) : list (list num) := snd (fst q).
+  Definition req_history (q : request) : history := snd q.
+  Fixpoint run_session (reqs : list request) (pool_size : nat) (st : St)
+    : list (list point * history * St * sb_trace) :=
+    match reqs with
+    | [] => []
+    | q :: reqs' => let r := sample_batch (req_k q) pool_size (req_grids q) (req_history q) st in
+                    r :: run_session reqs' pool_size (state_after r)
+    end.
 End Surrogate.
 
 (* ---------------------------------------------------------------- the pool of the built-in surrogates
